@@ -36,12 +36,16 @@ long  gv_o0, gv_l0;   /* names for the offset (in elements) and the length of gh
 #define MAXENV 100000000L
 #define FEQ(a, b) ((a) == (b) || ((a) != (a) && (b) != (b)))   /* copied value: NaN stays NaN */
 
+/* signed / and % by 8 cost a full 64-bit divider circuit each in the SAT encoding: alignment is written with a bit mask,
+   element offsets with a shift, the row-length bound with a multiplication (all exact for the non-negative offsets here) */
+#define ALIGNED(x) ((((unsigned long)(x)) & 7ul) == 0)
+#define ELOFF(p) ((long)(((unsigned long)__CPROVER_POINTER_OFFSET(p)) >> 3))
 #define WF_ROW(E, r)                                                                                   \
   (SAME((E)->xenv_[r], (E)->env_) && SAME((E)->xenv_[(r) + 1], (E)->env_) &&                           \
    OFF((E)->xenv_[r]) >= 0 && OFF((E)->xenv_[r]) <= OFF((E)->xenv_[(r) + 1]) &&                        \
-   OFF((E)->xenv_[(r) + 1]) <= (E)->gv_env_size * FSZ && OFF((E)->xenv_[r]) % FSZ == 0 &&              \
-   OFF((E)->xenv_[(r) + 1]) % FSZ == 0 &&                                                              \
-   (OFF((E)->xenv_[(r) + 1]) - OFF((E)->xenv_[r])) / FSZ <= (long)(r)-1)
+   OFF((E)->xenv_[(r) + 1]) <= (E)->gv_env_size * FSZ && ALIGNED(OFF((E)->xenv_[r])) &&                \
+   ALIGNED(OFF((E)->xenv_[(r) + 1])) &&                                                                \
+   OFF((E)->xenv_[(r) + 1]) - OFF((E)->xenv_[r]) <= FSZ * ((long)(r)-1))
 #define ROWLEN(E, r) ((OFF((E)->xenv_[(r) + 1]) - OFF((E)->xenv_[r])) / FSZ)
 #define ROW_IN(E, r) (1 <= (r) && (r) <= (E)->dim_)
 #define PTR_IN(E, r) ((E)->dim_ >= 1 && 1 <= (r) && (r) <= (E)->dim_ + 1)
@@ -71,8 +75,8 @@ static Float *gv_null_profile(void) { Float *p = malloc(0); __CPROVER_assume(p !
 #define SHIFTP(S, sp, cp) (SAME(sp, (S)->env_) && OFF(sp) == OFF(cp))
 #define ROWP(E, r, pb, pe)                                                                             \
   (SAME(pb, (E)->env_) && SAME(pe, (E)->env_) && OFF(pb) >= 0 && OFF(pb) <= OFF(pe) &&                 \
-   OFF(pe) <= (E)->gv_env_size * FSZ && OFF(pb) % FSZ == 0 && OFF(pe) % FSZ == 0 &&                    \
-   (OFF(pe) - OFF(pb)) / FSZ <= (long)(r)-1)
+   OFF(pe) <= (E)->gv_env_size * FSZ && ALIGNED(OFF(pb)) && ALIGNED(OFF(pe)) &&                        \
+   OFF(pe) - OFF(pb) <= FSZ * ((long)(r)-1))
 
 /* forall-elimination of a fact that THIS function has established for an arbitrary ghost index earlier on (the object it
    speaks about is not assigned in between: it is in no later assigns clause) */
@@ -282,7 +286,7 @@ GV_ANCHOR(e, gv_env + gv_re);
 //@ loop Envelope_inverse 3
 #include "ghost_begin.h"
 __CPROVER_assigns(b, __CPROVER_object_whole(self->env_))
-__CPROVER_loop_invariant(SAME(b, e) && FSZ * gv_rb <= OFF(b) && OFF(b) <= OFF(e) && (OFF(e) - OFF(b)) % FSZ == 0 &&
+__CPROVER_loop_invariant(SAME(b, e) && FSZ * gv_rb <= OFF(b) && OFF(b) <= OFF(e) && ALIGNED(OFF(e) - OFF(b)) &&
                          ((gv_ze && step < gv_k0) ==> gv_env[gv_o0 + gv_e0] == 0) &&
                          ((gv_ze && step == gv_k0 && FSZ * (gv_o0 + gv_e0) < OFF(b)) ==> gv_env[gv_o0 + gv_e0] == 0))
 __CPROVER_decreases(OFF(e) - OFF(b))
